@@ -370,9 +370,9 @@ pub fn run(tier: Tier, replay: Option<Value>) -> i32 {
         run.par_cases(tier.pick(2500, 250000), super::threads(), |c| one_case(&run, c));
     }
     run.finish(
-        "generated trees S0 backed up with default options; diff(version, S0) must be empty (and all-unchanged with include_unchanged); then 1-6 mutations (content with new mtime or size, mtime only, chmod, chown as root, file<->dir swaps, add/remove/rename of files, dirs and symlinks, retargeted links; in every fifth case a file is replaced by a fifo and a fifo and a socket appear: special files are not part of a backup, so that is one deleted file) give S1 and diff(version, S1) must equal, in apath order and with the right sigil, the classification computed from the two lstat snapshots (added / deleted / changed iff kind, owner, mode, file size or mtime, or link target differ; owners compare by name, an id without a name being 'no name': trees and chown mutations include owners of which only the user or only the group has a name); the same diff with one exclusion (the name of the first changed path) must report the differences of the kept paths; the next backup's change callback, restricted to files, must name the same added, changed and deleted sets. Also one version of 10 040 files with one entry per hunk, diffed against its own tree and after changes on both sides of the index-subdirectory boundary. Non-trivial = >= 2 real differences; distinct by the difference list.",
+        "generated trees S0 backed up with default options; diff(version, S0) must be empty (and all-unchanged with include_unchanged); then 1-6 mutations (content with new mtime or size, mtime only, chmod, chown as root, file<->dir swaps, add/remove/rename of files, dirs and symlinks, retargeted links; in every fifth case a file is replaced by a fifo and a fifo and a socket appear: special files are not part of a backup, so that is one deleted file) give S1 and diff(version, S1) must equal, in apath order and with the right sigil, the classification computed from the two lstat snapshots (added / deleted / changed iff kind, owner, mode, file size or mtime, or link target differ; owners compare by name, an id without a name being 'no name': trees and chown mutations include owners of which only the user or only the group has a name); the same diff with one exclusion (the name of the first changed path) must report the differences of the kept paths; the next backup's change callback, restricted to files, must name the same added, changed and deleted sets. In every fourth case ONE SourceTree handle is opened for the first comparison and kept for all later ones while the tree changes underneath; those cases (and one in eight of the others) also change the mode of the top directory itself. Also one version of 10 040 files with one entry per hunk, diffed against its own tree and after changes on both sides of the index-subdirectory boundary. Non-trivial = >= 2 real differences; distinct by the difference list.",
         &["directory and symlink mtimes are not significant (as in the statement)"],
         None,
-        &[("diffs_compared", 100), ("real_changes_added", 10), ("real_changes_deleted", 10), ("real_changes_changed", 10), ("callback_sets_compared", 50), ("diffs_of_versions_with_more_than_10000_hunks", 2)],
+        &[("diffs_compared", 100), ("real_changes_added", 10), ("real_changes_deleted", 10), ("real_changes_changed", 10), ("callback_sets_compared", 50), ("diffs_of_versions_with_more_than_10000_hunks", 2), ("cases_with_one_source_handle_kept_across_the_changes", 20), ("changes_of_the_top_directory_itself", 20)],
     )
 }
